@@ -336,7 +336,10 @@ func (g guard) locate() ast.Expr {
 				cands = append(cands, x.Rhs[0])
 			}
 		case *ast.ReturnStmt:
-			if _, isLit := x.Results[0].(*ast.FuncLit); g.kind == "return" && len(x.Results) == 1 && !isLit && containsAll(src(x.Results[0]), g.mentions) {
+			if g.kind != "return" || len(x.Results) != 1 { // a bare return has no result to look at
+				break
+			}
+			if _, isLit := x.Results[0].(*ast.FuncLit); !isLit && containsAll(src(x.Results[0]), g.mentions) {
 				cands = append(cands, x.Results[0])
 			}
 		}
